@@ -16,9 +16,51 @@ def _transform_bytes(o, path, env):
     return gm.TRANSFORMS[name][1](data)
 
 
+def twin_fs_spec(r, o):
+    """Two roots that will each be a freshly mounted tmpfs, filled in the same order, so that the k-th object of one
+    has the same inode number as the k-th object of the other (on different devices): same content, other content of
+    the same length, a one-byte variant, or another length."""
+    entries = [{"t": "d", "p": "r0"}, {"t": "d", "p": "r1"}]
+    per_root = {"r0": [], "r1": []}
+    nd = r.randrange(0, 3)
+    for rt in ("r0", "r1"):
+        for k in range(nd):
+            per_root[rt].append({"t": "d", "p": "%s/d%d" % (rt, k)})
+    mt = 0
+    for k in range(r.randrange(3, 9)):
+        fam = r.randrange(1, 10 ** 6)
+        L = r.choice([1, 100, 300, 4096, 5000, 20000, 70000, 200000])
+        dn = "" if nd == 0 or r.random() < 0.4 else "d%d/" % r.randrange(nd)
+        kind = r.choice(["same", "same", "other-family", "one-byte", "one-byte", "other-length"])
+        twin = {"same": (fam, L, []), "other-family": (fam + 1, L, []),
+                "one-byte": (fam, L, [r.choice([0, L // 2, L - 1, min(L - 1, 10000)])]),
+                "other-length": (fam, L + r.choice([1, 200]), [])}[kind]
+        mt += 1
+        per_root["r0"].append({"t": "f", "p": "r0/%sf%d" % (dn, k), "fam": fam, "len": L, "flip": [], "mtime": mt})
+        per_root["r1"].append({"t": "f", "p": "r1/%sf%d" % (dn, k), "fam": twin[0], "len": twin[1], "flip": twin[2], "mtime": mt})
+        if r.random() < 0.5:
+            # a second file of the same length in both mounts, so that the pair survives the size stage anyway
+            mt += 1
+            per_root["r0"].append({"t": "f", "p": "r0/%sg%d" % (dn, k), "fam": fam, "len": L, "flip": [], "mtime": mt})
+            per_root["r1"].append({"t": "f", "p": "r1/%sg%d" % (dn, k), "fam": fam + 2, "len": L, "flip": [], "mtime": mt})
+    entries += per_root["r0"] + per_root["r1"]
+    classes = {}
+    for e in entries:
+        if e["t"] == "f":
+            classes.setdefault((e["fam"], e["len"], tuple(e["flip"])), []).append(e["p"])
+    meta = {"classes": [{"fam": k[0], "len": k[1], "flip": list(k[2]), "members": v,
+                         **({"decoy_of": 0} if k[2] else {})} for k, v in classes.items()]}
+    return {"entries": entries, "roots": ["r0", "r1"], "twin_fs": True}, meta
+
+
 def build_case(seed, pid, i, tier):
     r = common.rng_for(seed, pid, i)
     o = gm.sample_opts(r)
+    if r.random() < 0.08:
+        o["fs"] = "ext4"
+        spec, meta = twin_fs_spec(r, o)
+        spec["cmd_roots"] = list(spec["roots"])
+        return o, spec, meta
     hostile = 0.5 if r.random() < 0.3 else 0.0
     extra_off = [x for x in (o["max_prefix"], o["max_suffix"]) if x]
     big = r.random() < (0.25 if tier == "thorough" else 0.15)
@@ -65,6 +107,12 @@ def _run(seed, pid, i, o, spec, meta, scratch):
     d = scratch.case_dir(o["fs"])
     troot = os.path.join(d, "t")
     home = os.path.join(d, "home")
+    twin = None
+    if spec.get("twin_fs"):
+        mps = [os.path.join(troot, rt) for rt in spec["roots"]]
+        for m in mps:
+            os.makedirs(m)
+        twin = scratch.mount_tmpfs(mps)
     tree.materialise(spec, troot)
     roots = spec.get("cmd_roots") or spec["roots"]
     roots_abs = [fse(os.path.join(troot, rt)) for rt in spec["roots"]]
@@ -88,6 +136,14 @@ def _run(seed, pid, i, o, spec, meta, scratch):
         return [violation("%s:unparsable-report" % pid, "report not parsable: %s" % e, witness)]
 
     counts = {"groups_reported": len(rep.groups), "opts": [gm.opts_sig(o)]}
+    if twin is not None:
+        counts["trees_on_two_fresh_tmpfs_mounts" if twin else "twin_mounts_not_permitted"] = 1
+        if twin:
+            inos = {}
+            for p_ in gm.scan_plain(roots_abs, min_size=0):
+                st_ = os.stat(p_)
+                inos.setdefault(st_.st_ino, set()).add(st_.st_dev)
+            counts["inode_numbers_shared_between_file_systems"] = sum(1 for v in inos.values() if len(v) > 1)
     if pid == "C01":
         if trace:
             bad = _read_coverage(rep, log, witness, counts, o)
